@@ -2,27 +2,60 @@
 // The whole check lives in c12/lru_harness.hh; this TU is the build without the members that do not compile on
 // an unrepaired tree (LRUMap::insert(const K&, const V&), LRUMap::at() const). c12_lru_gated.cc is the same
 // harness with those operations enabled; oracle/c12_gated.py builds and runs it (and reports a failure of the
-// compile probe as a violation instead of an infrastructure error).
+// compile probe as a violation instead of an infrastructure error). c12_lru_ndebug.cc is the same harness compiled
+// the way a release consumer of the headers compiles them (-DNDEBUG -O2).
 #include "c12/lru_harness.hh"
 
 using namespace c12;
 
-#ifdef C12_GATED
+// Three builds of this one source:
+//   c12_lru.cc         the plain build (ASan+UBSan, assertions on)
+//   c12_lru_gated.cc   + the members that do not compile on an unrepaired tree
+//   c12_lru_ndebug.cc  compiled with -DNDEBUG -O2, the configuration of a release consumer of these header-only templates: the
+//                      property speaks of the containers, not of one build configuration of them, and whatever the headers do
+//                      inside assert() is gone there. Subcheck names carry the suffix _nd. (Nothing in harness/verif.hh or in this
+//                      harness uses assert(): the oracle is the same in both configurations.)
+#if defined(C12_GATED)
 static const bool kGated = true;
+static const bool kNdebug = false;
 #define C12_SUFFIX "_g"
-#else
+#elif defined(C12_NDEBUG_BUILD)
+#ifndef NDEBUG
+#error "c12_lru_ndebug.cc must be compiled with -DNDEBUG (stage flags in run/props.d/C12.py)"
+#endif
 static const bool kGated = false;
+static const bool kNdebug = true;
+#define C12_SUFFIX "_nd"
+#else
+#ifdef NDEBUG
+#error "the plain C12 build keeps assertions on"
+#endif
+static const bool kGated = false;
+static const bool kNdebug = false;
 #define C12_SUFFIX ""
 #endif
+
+// exhaustive plan of one subcheck: complete up to `*_full`, and up to `*_pruned` without the histories that hold a throwing
+// no-op before their last operation (see Stats::prune_noops); big_* = the extreme-sizes alphabet; 0 = not enumerated
+struct Plan {
+  unsigned core_full, ext_full, core_pruned, ext_pruned, big_full, big_pruned;
+};
 
 int main(int argc, char** argv) {
   std::vector<Variant> variants;
 #ifndef C12_GATED
-  variants.push_back({"set_int", false, replay_set<int64_t>, 0, 1});
-  variants.push_back({"set_str", false, replay_set<std::string>, 0, 1});
+  variants.push_back({"set_int" C12_SUFFIX, false, replay_set<int64_t>, 0, 1});
+  variants.push_back({"set_str" C12_SUFFIX, false, replay_set<std::string>, 0, 1});
+  // key types that own a resource and have a cheap noexcept hash (not cached in the hash table's nodes), see lru_harness.hh
+  variants.push_back({"set_path" C12_SUFFIX, false, replay_set<PathKey>, 0, 1});
+  variants.push_back({"set_sptr" C12_SUFFIX, false, replay_set<SharedKey>, 0, 1});
 #endif
   variants.push_back({"map_int" C12_SUFFIX, true, replay_map<int64_t, int64_t>, 2, 3});
   variants.push_back({"map_str" C12_SUFFIX, true, replay_map<std::string, std::string>, 2, 3});
+  variants.push_back({"map_path" C12_SUFFIX, true, replay_map<PathKey, std::string>, 2, 3});
+#ifndef C12_GATED
+  variants.push_back({"map_sptr" C12_SUFFIX, true, replay_map<SharedKey, int64_t>, 2, 3});
+#endif
 
   bool thorough = false;
   for (int i = 1; i + 1 < argc; i++)
@@ -34,20 +67,38 @@ int main(int argc, char** argv) {
     sc.name = v.name;
     sc.run = make_run(v, kGated);
     sc.gen = [v]() { return gen_history(v, kGated); };
-    bool str = v.name.find("_str") != std::string::npos;
-    sc.quick_cases = kGated ? 15000 : (str ? 20000 : 40000);
-    sc.thorough_cases = kGated ? 150000 : (str ? 150000 : 400000);
+    bool is_int = v.name.find("_int") != std::string::npos;
+    bool is_str = v.name.find("_str") != std::string::npos;
+    bool is_path = v.name.find("_path") != std::string::npos;
+    bool is_sptr = v.name.find("_sptr") != std::string::npos;
+    // random histories over all shards (quick / thorough); the int64 and std::string budgets of the plain and the gated build are
+    // the ones the check always had
+    if (kGated) {
+      sc.quick_cases = is_path ? 5000 : 15000;
+      sc.thorough_cases = is_path ? 80000 : 150000;
+    } else if (kNdebug) {
+      sc.quick_cases = is_int ? 12000 : is_sptr ? 3000 : (is_path && v.is_map) ? 4000 : 6000;
+      sc.thorough_cases = is_int ? 120000 : is_sptr ? 30000 : 60000;
+    } else {
+      sc.quick_cases = is_int ? 40000 : is_sptr ? 6000 : is_str ? 20000 : v.is_map ? 12000 : 15000;
+      sc.thorough_cases = is_int ? 400000 : is_sptr ? 60000 : 150000;
+    }
     sc.max_size = 100;
-    if (!str) {
-      // exhaustive histories on the integer-keyed containers: complete up to `full`, and up to `pruned` without the
-      // histories that hold a throwing no-op before their last operation (see Stats::prune_noops)
-      struct Plan {
-        unsigned core_full, ext_full, core_pruned, ext_pruned;
-      };
-      Plan pl;
-      if (!v.is_map) pl = thorough ? Plan{5, 4, 7, 6} : Plan{4, 3, 6, 5}; // 14 / 24 shapes
-      else if (!kGated) pl = thorough ? Plan{5, 4, 7, 5} : Plan{4, 3, 6, 4}; // 17 / 30 shapes
-      else pl = thorough ? Plan{4, 3, 6, 5} : Plan{3, 2, 5, 4}; // 17 / 33 shapes
+    // exhaustive histories: the full plan on the integer-keyed containers of the plain and the gated build; a reduced plan on the
+    // integer-keyed containers of the NDEBUG build and on the path-keyed containers
+    Plan pl{0, 0, 0, 0, 0, 0};
+    if (is_int && !kNdebug) {
+      if (!v.is_map) pl = thorough ? Plan{5, 4, 7, 6, 4, 5} : Plan{4, 3, 6, 5, 3, 4}; // 14 / 24 shapes
+      else if (!kGated) pl = thorough ? Plan{5, 4, 7, 5, 4, 5} : Plan{4, 3, 6, 4, 3, 4}; // 17 / 30 shapes
+      else pl = thorough ? Plan{4, 3, 6, 5, 4, 5} : Plan{3, 2, 5, 4, 3, 4}; // 17 / 33 shapes
+    } else if (is_int && kNdebug) {
+      if (!v.is_map) pl = thorough ? Plan{4, 3, 6, 5, 3, 4} : Plan{3, 2, 5, 4, 2, 3};
+      else pl = thorough ? Plan{4, 3, 6, 4, 3, 4} : Plan{3, 2, 5, 3, 2, 3};
+    } else if (is_path && !kGated) {
+      if (!kNdebug) pl = thorough ? Plan{4, 3, 6, 4, 3, 4} : Plan{3, 2, 5, 3, 2, 3};
+      else pl = thorough ? Plan{3, 2, 5, 3, 2, 3} : Plan{3, 2, 4, 2, 0, 0};
+    }
+    if (pl.core_full) {
       sc.enumerate = [v, pl](Enum& e) {
         uint64_t block = 0;
         enumerate_alphabet(e, v, kGated, v.core_alpha, pl.core_full, false, block);
@@ -56,18 +107,21 @@ int main(int argc, char** argv) {
         enumerate_alphabet(e, v, kGated, v.ext_alpha, pl.ext_pruned, true, block);
         // sizes at the corners of size_t / ssize_t on new and existing keys
         unsigned big_alpha = v.is_map ? 5 : 4;
-        bool th = e.thorough();
-        enumerate_alphabet(e, v, kGated, big_alpha, th ? 4 : 3, false, block);
-        enumerate_alphabet(e, v, kGated, big_alpha, th ? 5 : 4, true, block);
+        if (pl.big_full) {
+          enumerate_alphabet(e, v, kGated, big_alpha, pl.big_full, false, block);
+          enumerate_alphabet(e, v, kGated, big_alpha, pl.big_pruned, true, block);
+        }
         auto al = make_alphabets(kGated);
         const Alphabet& ca = al[v.core_alpha];
         const Alphabet& xa = al[v.ext_alpha];
+        std::string big;
+        if (pl.big_full)
+          big = cat("; every history of length 1..", pl.big_full, " (1..", pl.big_pruned, " without interior throwing no-ops) over the ", al[big_alpha].shapes.size(),
+              " shapes of '", al[big_alpha].name, "' (sizes 1, 2, 2^63, 2^63+1, SIZE_MAX, touch with SSIZE_MAX, on 3 keys)");
         e.complete(cat("every history of length 1..", pl.core_full, " over the ", ca.shapes.size(), " operation shapes of alphabet '", ca.name, "' and 1..", pl.ext_full, " over the ",
             xa.shapes.size(), " shapes of '", xa.name, "'; every history of length 1..", pl.core_pruned, " ('", ca.name, "') and 1..", pl.ext_pruned, " ('", xa.name,
             "') except those with a throwing no-op (absent-key touch/change_size/lookup, evict on empty) before the last operation, which are state-equivalent to a shorter enumerated history "
-            "(3 keys, sizes {0,1,2}, a second instance reachable through swap); every history of length 1..", th ? 4 : 3, " (1..", th ? 5 : 4,
-            " without interior throwing no-ops) over the ", al[big_alpha].shapes.size(), " shapes of '", al[big_alpha].name,
-            "' (sizes 1, 2, 2^63, 2^63+1, SIZE_MAX, touch with SSIZE_MAX, on 3 keys)"));
+            "(3 keys, sizes {0,1,2}, a second instance reachable through swap)", big));
       };
     }
     checks.push_back(sc);
